@@ -428,9 +428,66 @@ func hasWriterField(t types.Type) bool {
 		return false
 	}
 	for i := 0; i < st.NumFields(); i++ {
-		if isNamed(st.Field(i).Type(), "io", "Writer") {
+		ft := st.Field(i).Type()
+		if isNamed(ft, "io", "Writer") || isNamed(ft, "bufio", "Writer") {
 			return true
 		}
 	}
 	return false
+}
+
+// ruleDirectSink: the format writers hand every byte straight to the
+// destination the caller supplied. If the constructor wraps the destination
+// (bufio.NewWriter, ...), the counts the Write methods return are counts of
+// bytes *buffered*; when the destination fails they differ from the bytes
+// actually emitted.
+func ruleDirectSink(c *Ctx, rule string, shorts ...string) {
+	for _, short := range shorts {
+		fd, p := c.decl(short, "NewWriter")
+		key := p.Types.Name() + ".NewWriter/destination-stored-unwrapped"
+		var wparam types.Object
+		for _, fl := range fd.Type.Params.List {
+			if tv, ok := p.TypesInfo.Types[fl.Type]; ok && isNamed(tv.Type, "io", "Writer") && len(fl.Names) > 0 {
+				wparam = p.TypesInfo.Defs[fl.Names[0]]
+			}
+		}
+		if wparam == nil {
+			c.und(rule, key, fd.Pos(), "NewWriter has no io.Writer parameter")
+			continue
+		}
+		verdict, pos := "", fd.Pos()
+		ast.Inspect(fd.Body, func(n ast.Node) bool {
+			kv, ok := n.(*ast.KeyValueExpr)
+			if !ok {
+				return true
+			}
+			id, ok := kv.Key.(*ast.Ident)
+			if !ok {
+				return true
+			}
+			fo, ok := p.TypesInfo.Uses[id].(*types.Var)
+			if !ok || !fo.IsField() {
+				return true
+			}
+			ft := fo.Type()
+			if !(isNamed(ft, "io", "Writer") || isNamed(ft, "bufio", "Writer")) {
+				return true
+			}
+			pos = kv.Pos()
+			if vid, ok := unparen(kv.Value).(*ast.Ident); ok && p.TypesInfo.Uses[vid] == wparam {
+				verdict = "ok"
+			} else {
+				verdict = "wrapped: " + exprStr(c.Fset, kv.Value)
+			}
+			return true
+		})
+		switch {
+		case verdict == "ok":
+			c.ok(rule, key, pos, "the writer field is the caller's io.Writer itself")
+		case verdict == "":
+			c.und(rule, key, pos, "no writer field initialised in NewWriter's composite literal")
+		default:
+			c.bad(rule, key, pos, "the destination is "+verdict+" — the Write methods then count bytes accepted by the wrapper, not bytes emitted: when the underlying writer fails or short-writes, the returned count exceeds what reached it")
+		}
+	}
 }
